@@ -2,8 +2,8 @@
   Proofs/Ieee17.lean — 17 significant decimal digits identify an IEEE-754 binary64 value.
 
   `roundSci p x` (Model/TextIO.lean) is the value of Python's `"{:.pe}".format(x)` (correctly rounded,
-  p+1 significant digits). `save_spike_trains_to_txt(..., precision=17)` writes `"{:.16e}"`... (see
-  the caller: precision 17 ↦ p = 16). The theorem below says that the printed value is STRICTLY closer
+  p+1 significant digits). `save_spike_trains_to_txt(..., precision=P)` writes `"{:.Pe}"`, i.e. `roundSci P`
+  (precision 17 ↦ p = 17, 18 significant digits; the library default 8 does not round-trip). The theorem below says that the printed value is STRICTLY closer
   to `x` than to any other double, so every correctly rounding decimal→binary parser (Python's `float`)
   returns `x` bit for bit.
 
@@ -279,5 +279,99 @@ theorem reload_precision_ge_16 (p : Nat) (hp : 16 ≤ p) (s : List Q) (hs : ∀ 
     ∀ x ∈ s, UniquelyNearest (roundSci p x) x :=
   fun x hxs => digits_ge_17_identify_a_double p hp x (hs x hxs)
 
-end PySpike.Ieee
+/-! ### the overflow threshold `±2^1024` as a competitor
 
+A correctly rounding parser also compares a decimal against the overflow threshold (halfway between the
+largest double and the would-be next value `2^1024`). `2^1024` is not `IsDouble`; the spacing argument
+however never uses the upper exponent bound, so it is repeated for `IsBinary53` (53-bit significand,
+arbitrary exponent), which contains the doubles and `±2^1024`. -/
+
+/-- `m · 2^e` with `|m| < 2^53`, exponent unrestricted -/
+def IsBinary53 (x : Q) : Prop :=
+  ∃ m e : Int, |m| < 2 ^ 53 ∧ x = (m : Q) * (2 : Q) ^ e
+
+theorem IsDouble.isBinary53 {x : Q} (hx : IsDouble x) : IsBinary53 x := by
+  obtain ⟨m, e, hm, -, -, h⟩ := hx
+  exact ⟨m, e, hm, h⟩
+
+/-- `double_gap` without the exponent bounds -/
+theorem binary53_gap (x y : Q) (hx : IsBinary53 x) (hy : IsBinary53 y) (hne : y ≠ x) :
+    |x| ≤ |x - y| * 2 ^ 53 := by
+  obtain ⟨m, e, hm, rfl⟩ := hx
+  obtain ⟨n, f, hn, rfl⟩ := hy
+  by_cases hef : e ≤ f
+  · have hs := zpow_split e f hef
+    set d := (f - e).toNat
+    have hy' : (n : Q) * (2 : Q) ^ f = ((n * 2 ^ d : Int) : Q) * (2 : Q) ^ e := by
+      rw [hs]; push_cast; ring
+    rw [hy'] at hne ⊢
+    apply scaled_gap
+    apply int_gap_left _ _ hm
+    intro h
+    apply hne
+    rw [h]
+  · have hs := zpow_split f e (by omega)
+    set d := (e - f).toNat
+    have hx' : (m : Q) * (2 : Q) ^ e = ((m * 2 ^ d : Int) : Q) * (2 : Q) ^ f := by
+      rw [hs]; push_cast; ring
+    rw [hx'] at hne ⊢
+    apply scaled_gap
+    apply int_gap_right _ _ hn
+    intro h
+    apply hne
+    rw [h]
+
+/-- every double is strictly inside `(-2^1024, 2^1024)` -/
+theorem double_abs_lt (x : Q) (hx : IsDouble x) : |x| < (2 : Q) ^ (1024 : Int) := by
+  obtain ⟨m, e, hm, -, he, rfl⟩ := hx
+  have hpos : (0 : Q) < (2 : Q) ^ e := zpow_pos (by norm_num) _
+  have hmq : |(m : Q)| < 2 ^ 53 := by exact_mod_cast hm
+  have hmono : (2 : Q) ^ e ≤ (2 : Q) ^ (971 : Int) := zpow_le_zpow_right₀ (by norm_num) he
+  have hsplit : (2 : Q) ^ (1024 : Int) = 2 ^ 53 * (2 : Q) ^ (971 : Int) := by
+    rw [show (1024 : Int) = ((53 : Nat) : Int) + 971 by norm_num, zpow_add₀ (by norm_num), zpow_natCast]
+  rw [abs_mul, abs_of_pos hpos, hsplit]
+  exact mul_lt_mul hmq hmono hpos (by positivity)
+
+/-- the closeness argument of `digits_ge_17_identify_a_double`, for any competitor `y` in `IsBinary53` -/
+theorem print_closer_than_binary53 (p : Nat) (hp : 16 ≤ p) (x : Q) (hx : IsDouble x)
+    (y : Q) (hy : IsBinary53 y) (hne : y ≠ x) : |roundSci p x - x| < |roundSci p x - y| := by
+  by_cases h0 : x = 0
+  · subst h0
+    have : roundSci p (0 : Q) = 0 := by simp [roundSci]
+    rw [this]
+    simpa using hne
+  · have hgap := binary53_gap x y hx.isBinary53 hy hne
+    have hclose := print_close p x hx h0
+    set d := roundSci p x
+    have hxpos : 0 < |x| := abs_pos.mpr h0
+    have htri : |x - y| ≤ |d - x| + |d - y| := by
+      have : x - y = (d - y) - (d - x) := by ring
+      rw [this]
+      have := abs_sub (d - y) (d - x)
+      linarith
+    have hpow : (10 : Q) ^ 16 ≤ (10 : Q) ^ p := pow_le_pow_right₀ (by norm_num) hp
+    have hinv : (1 : Q) / (2 * 10 ^ p) ≤ 1 / (2 * 10 ^ 16) :=
+      one_div_le_one_div_of_le (by positivity) (by linarith)
+    have hclose' : |d - x| ≤ |x| * (1 / (2 * 10 ^ 16)) :=
+      hclose.trans (mul_le_mul_of_nonneg_left hinv hxpos.le)
+    have hnum : |x| * (1 / 10 ^ 16) < |x| * (1 / 2 ^ 53) :=
+      mul_lt_mul_of_pos_left (by norm_num) hxpos
+    have hgap' : |x| * (1 / 2 ^ 53) ≤ |x - y| := by
+      rw [mul_one_div, div_le_iff₀ (by positivity)]; exact hgap
+    have hhalf : |x| * (1 / (2 * 10 ^ 16)) = |x| * (1 / 10 ^ 16) / 2 := by ring
+    linarith
+
+/-- the printed value of a double is strictly closer to it than to the overflow value `±2^1024`, hence
+    strictly below the overflow threshold `2^1024 - 2^970` in absolute value: a correctly rounding
+    parser never overflows on it -/
+theorem print_farther_from_overflow (p : Nat) (hp : 16 ≤ p) (x : Q) (hx : IsDouble x) :
+    |roundSci p x - x| < |roundSci p x - (2 : Q) ^ (1024 : Int)| ∧
+    |roundSci p x - x| < |roundSci p x - (-(2 : Q) ^ (1024 : Int))| := by
+  have hlt := abs_lt.mp (double_abs_lt x hx)
+  constructor
+  · apply print_closer_than_binary53 p hp x hx _ ⟨1, 1024, by norm_num, by norm_num⟩
+    intro h; rw [h] at hlt; exact lt_irrefl _ hlt.2
+  · apply print_closer_than_binary53 p hp x hx _ ⟨-1, 1024, by norm_num, by norm_num⟩
+    intro h; rw [← h] at hlt; exact lt_irrefl _ hlt.1
+
+end PySpike.Ieee
